@@ -1,3 +1,4 @@
+import Proofs.EcdsaCodec
 import Proofs.EcdsaInstNamed
 import Proofs.EcdsaInstToy
 import Proofs.EcdsaInstCurve
@@ -67,6 +68,43 @@ theorem sign_deterministic_then_verify {β σ : Type} (C : PointOpsCorrect ops G
     (fuel : ℕ) (sig : β) (hsig : signDeterministic ops d H data genK enc fuel = some (.ok sig)) :
     verify ops Q H dec (wrap sig) data true = .ok true :=
   signDigestDeterministic_verifies C d Q hQ hQd (H data) (genK (H data)) enc wrap dec hcodec true fuel 0 sig hsig
+
+/-- **the six encoders of `util.py`** (`sigencode_string`, `_strings`, `_der` and their `_canonize` variants) with
+their decoders are codec pairs in the sense required above, for every order `2 ≤ n` (DER: `n ≤ 256^126 = 2^1008`, the
+real bound of `der.encode_length`; every curve order is below `2^521`).  From the round-trip theorems of C12 and
+`C13.model_canonize`. -/
+theorem six_encoders_are_codecs (n : ℤ) (hn : 2 ≤ n) (hbig : n ≤ 256 ^ 126) :
+    Codec encString id Util.sigdecodeString n
+    ∧ Codec encStrings (fun p : Bytes × Bytes => [p.1, p.2]) Util.sigdecodeStrings n
+    ∧ Codec encDer id Util.sigdecodeDer n
+    ∧ Codec encStringCanonize id Util.sigdecodeString n
+    ∧ Codec encStringsCanonize (fun p : Bytes × Bytes => [p.1, p.2]) Util.sigdecodeStrings n
+    ∧ Codec encDerCanonize id Util.sigdecodeDer n :=
+  ⟨codec_string n hn, codec_strings n hn, codec_der n hn hbig, codec_string_canonize n hn,
+   codec_strings_canonize n hn, codec_der_canonize n hn hbig⟩
+
+/-- hence, concretely: `sign_digest` with any of the six encoders, then `verify_digest` with the matching decoder -/
+theorem sign_then_verify_six_encoders (C : PointOpsCorrect ops G den xc valid) (hbig : ops.order ≤ 256 ^ 126)
+    (d : ℤ) (Q : P) (hQ : valid Q) (hQd : den Q = d • G) (dg : Bytes) (k : Option ℤ) (rand : ℤ → Res ℤ) (allow : Bool) :
+    (∀ sig, signDigest ops d dg k rand encString allow = .ok sig →
+        verifyDigest ops Q Util.sigdecodeString sig dg allow = .ok true)
+    ∧ (∀ sig, signDigest ops d dg k rand encStrings allow = .ok sig →
+        verifyDigest ops Q Util.sigdecodeStrings [sig.1, sig.2] dg allow = .ok true)
+    ∧ (∀ sig, signDigest ops d dg k rand encDer allow = .ok sig →
+        verifyDigest ops Q Util.sigdecodeDer sig dg allow = .ok true)
+    ∧ (∀ sig, signDigest ops d dg k rand encStringCanonize allow = .ok sig →
+        verifyDigest ops Q Util.sigdecodeString sig dg allow = .ok true)
+    ∧ (∀ sig, signDigest ops d dg k rand encStringsCanonize allow = .ok sig →
+        verifyDigest ops Q Util.sigdecodeStrings [sig.1, sig.2] dg allow = .ok true)
+    ∧ (∀ sig, signDigest ops d dg k rand encDerCanonize allow = .ok sig →
+        verifyDigest ops Q Util.sigdecodeDer sig dg allow = .ok true) := by
+  obtain ⟨c1, c2, c3, c4, c5, c6⟩ := six_encoders_are_codecs ops.order C.two_le hbig
+  exact ⟨fun sig h => sign_then_verify C d Q hQ hQd dg k rand _ id _ c1 allow sig h,
+    fun sig h => sign_then_verify C d Q hQ hQd dg k rand _ _ _ c2 allow sig h,
+    fun sig h => sign_then_verify C d Q hQ hQd dg k rand _ id _ c3 allow sig h,
+    fun sig h => sign_then_verify C d Q hQ hQd dg k rand _ id _ c4 allow sig h,
+    fun sig h => sign_then_verify C d Q hQ hQd dg k rand _ _ _ c5 allow sig h,
+    fun sig h => sign_then_verify C d Q hQ hQd dg k rand _ id _ c6 allow sig h⟩
 
 /-- the public point made by `from_secret_exponent` is a legitimate `Q` for all of the above -/
 theorem key_pair_ok (C : PointOpsCorrect ops G den xc valid) (d : ℤ) (hd : 1 ≤ d ∧ d < ops.order) :
